@@ -54,8 +54,11 @@ type tunnelServer struct {
 }
 
 func (s *tunnelServer) serve(tunnelMetadata metadata.MD) error {
+	verifServerStart(s)
+	defer verifServerEnd(s)
 	if s.clientAcceptsSettings {
 		go func() {
+			verifYield("srv.settings.emit", -1)
 			_ = s.stream.Send(&tunnelpb.ServerToClient{
 				StreamId: -1,
 				Frame: &tunnelpb.ServerToClient_Settings{
@@ -89,6 +92,7 @@ func (s *tunnelServer) serve(tunnelMetadata metadata.MD) error {
 				// we don't want to stall the receive loop as that could lead to
 				// flow control deadlock, so send on a different goroutine
 				go func() {
+					verifYield("srv.reject.emit", in.StreamId)
 					st, _ := status.FromError(err)
 					_ = s.stream.Send(&tunnelpb.ServerToClient{
 						StreamId: in.StreamId,
@@ -127,6 +131,7 @@ func (s *tunnelServer) createStream(ctx context.Context, streamID int64, frame *
 		return true, status.Errorf(codes.Unavailable, "server does not support protocol revision %d", frame.ProtocolRevision)
 	}
 	noFlowControl := frame.ProtocolRevision == tunnelpb.ProtocolRevision_REVISION_ZERO
+	verifYield("srv.create.checked", streamID)
 
 	s.mu.Lock()
 	defer s.mu.Unlock()
@@ -140,6 +145,7 @@ func (s *tunnelServer) createStream(ctx context.Context, streamID int64, frame *
 		return false, fmt.Errorf("cannot create stream ID %d: that ID has already been used", streamID)
 	}
 	s.lastSeen = streamID
+	verifEvent("srv.create.recorded", streamID, int64(len(s.streams)), 0)
 
 	if frame.MethodName[0] == '/' {
 		frame.MethodName = frame.MethodName[1:]
@@ -215,6 +221,7 @@ func (s *tunnelServer) createStream(ctx context.Context, streamID int64, frame *
 				}
 			},
 			func(windowUpdate uint32) {
+				verifYield("srv.credit", streamID)
 				if str.loadHalfClosed() != nil {
 					// stream already half-closed, no more data coming
 					return
@@ -583,7 +590,9 @@ func (st *tunnelServerStream) serveStream(md interface{}, srv interface{}) {
 		// In case context closes asynchronously via timeout,
 		// we need to make sure receiver is closed promptly.
 		<-st.ctx.Done()
+		verifYield("srv.watch.fired", st.streamID)
 		st.receiver.cancel()
+		verifYield("srv.watch.cancelled", st.streamID)
 	}()
 
 	switch md := md.(type) {
@@ -604,8 +613,11 @@ func (st *tunnelServerStream) serveStream(md interface{}, srv interface{}) {
 
 func (st *tunnelServerStream) finishStream(err error) {
 	st.cancel()
+	verifYield("srv.finish.cancelled", st.streamID)
 	st.svr.removeStream(st.streamID)
+	verifYield("srv.finish.removed", st.streamID)
 	st.halfClose(err)
+	verifYield("srv.finish.halfclosed", st.streamID)
 
 	st.writeMu.Lock()
 	defer st.writeMu.Unlock()
@@ -627,6 +639,7 @@ func (st *tunnelServerStream) finishStream(err error) {
 	// message from a different goroutine
 	trailers := st.trailers
 	go func() {
+		verifYield("srv.close.emit", st.streamID)
 		if sendHeaders {
 			_ = st.stream.Send(&tunnelpb.ServerToClient{
 				StreamId: st.streamID,
@@ -634,6 +647,7 @@ func (st *tunnelServerStream) finishStream(err error) {
 					ResponseHeaders: toProto(headers),
 				},
 			})
+			verifYield("srv.close.mid", st.streamID)
 		}
 		_ = st.stream.Send(&tunnelpb.ServerToClient{
 			StreamId: st.streamID,
